@@ -88,6 +88,19 @@ func (r *Report) finish(w *World, o *Options, start time.Time) int {
 			subsetFail = append(subsetFail, e.key+": "+f)
 		}
 	}
+	inl := map[string]bool{}
+	for _, e := range r.encs {
+		if e.Script != nil {
+			for _, f := range e.inlined {
+				inl[f+" (into "+e.key+")"] = true
+			}
+		}
+	}
+	var inlined []string
+	for k := range inl {
+		inlined = append(inlined, k)
+	}
+	sort.Strings(inlined)
 	var fns []string
 	for k := range fnSet {
 		fns = append(fns, k)
@@ -133,6 +146,7 @@ func (r *Report) finish(w *World, o *Options, start time.Time) int {
 		"checker_cmd":              fmt.Sprintf("/verif/bin/govc check --property %s --tier %s", o.property, o.tier),
 		"trusted_base":             trusted,
 		"functions_under_contract": fns,
+		"verified_by_inlining":     inlined,
 		"by_backend":               byBackend,
 		"by_kind":                  kinds,
 		"solver_ms":                solverMs,
